@@ -172,7 +172,7 @@ class CaseGen:
                         ('extend_chars', 3), ('extend_strs', 2), ('write_fmt', 2), ('clone', 10), ('clone_from', 3), ('drop', 4)])
         if large and L > 600:
             # the model's retain and pop are quadratic / slow on long texts (they decode from the front): keep them rare here
-            if c == 'retain': c = 'shrink_to'
+            if c == 'retain' and not r.chance(1, 5): c = 'shrink_to'
             elif c == 'pop' and not r.chance(1, 4): c = 'truncate'
         bad = self.p.get('bad_indices') and r.chance(1, 5)
         if c == 'push':
@@ -308,7 +308,7 @@ PROFILES = {
     # allocation faults
     'faults': dict(steps=[6, 10, 16, 24], faults=True, user_panics=True, fault_range=14),
     # few operations on texts and capacities of a page or more
-    'large': dict(steps=[4, 6, 8, 12], large=True, limit=1 << 20),
+    'large': dict(steps=[4, 6, 8, 12], large=True, user_panics=True, limit=1 << 20),
     'large_faults': dict(steps=[4, 6, 8], large=True, faults=True, fault_range=8, limit=1 << 20),
     'faults_hostile': dict(steps=[6, 10, 16], faults=True, bad_indices=True, big_sizes=True, user_panics=True, fault_range=10),
 }
